@@ -9,133 +9,19 @@
 //!    run by the PEG interpreter + builder model): full AST with positions, parse-error position, panic site.
 //! O: REAL result vs the abstract document the text was rendered from — structure first, then positions (= the
 //!    token starts the renderer recorded); block strings vs the spec's BlockStringValue().
-use nitrogql_error::PositionedError;
-use nitrogql_parser::{parse_operation_document, parse_type_system_document};
 use nvh::gen::*;
 use nvh::gm::*;
 use nvh::render::*;
 use nvh::*;
 use serde_json::{json, Value};
 
+#[path = "c07/common.rs"]
+mod common;
 #[path = "c07/mutate.rs"]
 mod mutate;
+use common::*;
 
 const RULE: &str = "a text is non-trivial if it parses to ≥ 2 definitions or contains an argument, directive, description or fragment (distinct by text)";
-
-#[derive(Clone, Debug, PartialEq)]
-pub enum Res {
-    Ok(Sexp),
-    Err(usize, usize),
-    Panic(String),
-    Other(String),
-}
-
-impl Res {
-    fn kind(&self) -> &'static str {
-        match self {
-            Res::Ok(_) => "ok",
-            Res::Err(..) => "syntax-error",
-            Res::Panic(_) => "panic",
-            Res::Other(_) => "other",
-        }
-    }
-    fn show(&self) -> String {
-        match self {
-            Res::Ok(s) => {
-                let l = s.to_line();
-                if l.chars().count() > 300 { format!("ok {}…", l.chars().take(300).collect::<String>()) } else { format!("ok {l}") }
-            }
-            Res::Err(l, c) => format!("syntax error at {l}:{c}"),
-            Res::Panic(m) => format!("panic {m}"),
-            Res::Other(m) => m.clone(),
-        }
-    }
-}
-
-fn word_after<'a>(s: &'a str, prefix: &str) -> Option<(&'a str, &'a str)> {
-    let r = s.strip_prefix(prefix)?;
-    let end = r.find(|c: char| !(c.is_alphanumeric() || c == '_')).unwrap_or(r.len());
-    Some((&r[..end], &r[end..]))
-}
-
-/// stable class of a panic message of the real builders (same strings as `panicText` in lean/Driver/C07.lean)
-pub fn panic_class(msg: &str) -> String {
-    if let Some((w, rest)) = word_after(msg, "Expected a child of ") {
-        if let Some((g, _)) = word_after(rest, ", actual ") {
-            return format!("all-children:{w}:{g}");
-        }
-    }
-    if let Some((w, rest)) = word_after(msg, "Expected 1 child of ") {
-        if rest.starts_with(", actual 0") {
-            return format!("only-child-0:{w}");
-        }
-    }
-    if let Some((w, _)) = word_after(msg, "Expected 1 child for ") {
-        return format!("only-child-many:{w}");
-    }
-    if let Some((w, rest)) = word_after(msg, "Expected ") {
-        if let Some((g, _)) = word_after(rest, ", actual ") {
-            return format!("parts:{w}:{g}");
-        }
-    }
-    if msg.starts_with("Unexpected") {
-        return "unexpected".into();
-    }
-    if msg.contains("Invalid character code") {
-        return "invalid-char-code".into();
-    }
-    if msg.contains("ParseIntError") {
-        return "hex-parse".into();
-    }
-    if msg.contains("Empty document") {
-        return "empty-document".into();
-    }
-    if msg.contains("Unknown operation type") {
-        return "unknown-operation-type".into();
-    }
-    if msg.contains("Unknown escape sequence") {
-        return "unknown-escape".into();
-    }
-    let short: String = msg.chars().take(48).map(|c| if c.is_alphanumeric() { c } else { '-' }).collect();
-    format!("other:{short}")
-}
-
-pub fn real_parse(kind: &str, text: &str) -> Res {
-    let t = text.to_string();
-    let is_op = kind == "op";
-    let r = catch(move || {
-        if is_op {
-            match parse_operation_document(&t) {
-                Ok(d) => Ok(from_real_doc_ext(&d).to_sexp()),
-                Err(e) => Err(PositionedError::from(e).position().map(|p| (p.line, p.column))),
-            }
-        } else {
-            match parse_type_system_document(&t) {
-                Ok(d) => Ok(from_real_tsdoc_ext(&d).to_sexp()),
-                Err(e) => Err(PositionedError::from(e).position().map(|p| (p.line, p.column))),
-            }
-        }
-    });
-    match r {
-        Ok(Ok(s)) => Res::Ok(s),
-        Ok(Err(Some((l, c)))) => Res::Err(l, c),
-        Ok(Err(None)) => Res::Other("parse error without position".into()),
-        Err(m) => Res::Panic(panic_class(&m)),
-    }
-}
-
-pub fn model_res(ans: &Sexp) -> Res {
-    match ans.head() {
-        Some("ok") => Res::Ok(ans.args()[0].clone()),
-        Some("err") => Res::Err(ans.args()[0].as_int().unwrap_or(-1) as usize, ans.args()[1].as_int().unwrap_or(-1) as usize),
-        Some("panic") => Res::Panic(ans.args()[0].as_str().unwrap_or("").to_string()),
-        _ => Res::Other(format!("model answered {}", ans.to_line())),
-    }
-}
-
-pub fn request(kind: &str, text: &str) -> Sexp {
-    Sexp::call("gql.parse", vec![Sexp::atom(kind), Sexp::str(text)])
-}
 
 #[derive(Clone, Debug)]
 struct Case {
@@ -177,6 +63,16 @@ impl<'a> Ctx<'a> {
     fn run(&mut self, cases: &[Case]) {
         let reqs: Vec<Sexp> = cases.iter().map(|c| request(c.kind, &c.text)).collect();
         let answers = self.drv.batch(&reqs);
+        // `run_children_in_shape` (Props/C08, stated OPEN) evaluated on every text: a violation is a K failure
+        let sreqs: Vec<Sexp> = cases.iter().map(|c| Sexp::call("gql.shapecheck", vec![Sexp::atom(c.kind), Sexp::str(c.text.as_str())])).collect();
+        let shapes = self.drv.batch(&sreqs);
+        for (c, sh) in cases.iter().zip(shapes.iter()) {
+            match sh.head() {
+                Some("ok") => self.rep.count_n("shape:pairs-checked", sh.args()[0].as_int().unwrap_or(0) as u64),
+                Some("noparse") => {}
+                _ => self.rep.fail("K", "shape:children-not-in-shape", &format!("{:?}: a pair's children are outside Shape.ruleShape of its rule: {}", c.text, sh.to_line()), c.json()),
+            }
+        }
         for (c, ans) in cases.iter().zip(answers.iter()) {
             self.rep.evaluations += 1;
             let t0 = std::time::Instant::now();
@@ -208,7 +104,7 @@ impl<'a> Ctx<'a> {
                     Res::Ok(got) => {
                         if strip_pos(got) != strip_pos(exp) {
                             let what = first_diff(&strip_pos(exp), &strip_pos(got));
-                            let sig = if c.label.starts_with("block-string") { "block-string-raw".to_string() } else { format!("structure:{what}") };
+                            let sig = if c.label.contains("block-string") { "block-string-raw".to_string() } else { format!("structure:{what}") };
                             self.rep.fail("O", &sig, &format!("{:?} parses to a different document than it denotes: expected {} got {}", c.text, strip_pos(exp).to_line(), strip_pos(got).to_line()), c.json());
                         } else if got != exp && !c.label.starts_with("block-string") {
                             let what = first_diff(exp, got);
